@@ -133,7 +133,7 @@ func runC20(c *Ctx, r *Rec) {
 		n += checkOrdinalArgs(c, r, "D2-ordinal-args", info, fd)
 	}
 	r.count("ordinal call sites", n)
-	r.floor("D2-ordinal-args", 1)
+	r.floorSoft("D2-ordinal-args", "module/ordinal-call-sites", "no call of an ordinal-indexed method with a computed index in the module package")
 
 	// ---- D4 self fill
 	if qr != nil {
